@@ -244,6 +244,10 @@ def ih_variants(tier):
     out.append(rep(base, name=('x', 'y')))
     out.append(rep(base, name='shared', share='rename'))
     out.append(rep(base, cls='IndexHierarchyGO'))
+    # grow-only twins whose cached arrays are STALE when compared: arrays built, then grown to the same labels (or to other labels), nothing read since
+    out.append(rep(base, share='realised'))      # arrays already built when compared (the others are compared before any array is built)
+    out.append(rep(base, cls='IndexHierarchyGO', share='go-stale-cache'))
+    out.append(rep(base, cls='IndexHierarchyGO', labels=(('a', 1), ('a', 2), ('b', 1), ('b', 3)), share='go-stale-cache'))
     out.append(rep(base, route='product'))
     out.append(rep(base, route='product', name='n'))
     out.append(rep(base, labels=(('b', 1), ('b', 2), ('a', 1), ('a', 2)), route='product'))
@@ -323,6 +327,10 @@ def frame_variants(tier, cls='Frame'):
     out.append(rep(base, name=None))
     out.append(rep(base, name='shared', share='rename'))
     out.append(rep(base, index=I(('r0', 'r1'), '<U2', name='shared-ix'), share='index-rename'))
+    # two views of ONE read-only 2-D array that start at the same address and step differently (rows 0,1 and rows 0,2)
+    cx3 = I(('a', 'b', 'c'), '<U1')
+    out.append(F((('int64', (0, 3)), ('int64', (1, 4)), ('int64', (2, 5))), ix, cx3, name='n', cls=cls, layout='single2d') | {'share': 'strided-a'})
+    out.append(F((('int64', (0, 6)), ('int64', (1, 7)), ('int64', (2, 8))), ix, cx3, name='n', cls=cls, layout='single2d') | {'share': 'strided-b'})
     out.append(rep(base, columns=I(('a', 'b', 'c', 'd'), '<U1', name='shared-cx'), share='columns-rename'))
     out.append(rep(base, cls='FrameGO' if cls == 'Frame' else 'Frame'))
     out.append(rep(base, cls='FrameHE' if cls == 'Frame' else 'FrameGO'))
@@ -435,6 +443,22 @@ def run_case(case, ctx):
             objs.append(base_obj.relabel(base_obj.index.rename(d['index']['name'])))
         elif sh == 'columns-rename':
             objs.append(base_obj.relabel(columns=base_obj.columns.rename(d['columns']['name'])))
+        elif sh == 'realised':
+            o_ = build(d)
+            o_.values
+            objs.append(o_)
+        elif sh == 'go-stale-cache':
+            g = sf.IndexHierarchyGO.from_labels(d['labels'][:-1], name=d['name'])
+            g.values                      # the cache now describes three labels
+            g.append(d['labels'][-1])     # ... and is stale
+            objs.append(g)
+        elif sh in ('strided-a', 'strided-b'):
+            if 'strided' not in _CACHE:
+                big = np.arange(12, dtype=np.int64).reshape(4, 3)
+                big.flags.writeable = False
+                _CACHE['strided'] = big
+            view = _CACHE['strided'][:2] if sh == 'strided-a' else _CACHE['strided'][::2]
+            objs.append(getattr(sf, d['cls'])(view, index=build(d['index']), columns=build(d['columns']), name=d['name']))
         elif sh in ('square-row', 'square-col'):
             if 'square' not in _CACHE:
                 sq = np.arange(1, 10, dtype=np.int64).reshape(3, 3)
